@@ -155,6 +155,15 @@ fn check_repl(seed: u64, shard: u64, index: u64, rep: &mut Report) {
 /// hand-written histories around what the generated ones reach only by luck: one site evaluated several times,
 /// names of earlier inputs re-bound locally, state created by a run, the helper closures' own names
 const FIXED_HISTORIES: &[&[&str]] = &[
+    // a cell over a constant content is a new cell each time its expression is evaluated - each run of the program included
+    &["s := mut (0, 10);", "t := *s;", "s = (t.0 + 1, t.1);", "u := *s;", "u.0"],
+    &["s := mut (int, (int, int)) (0, (1, 2));", "t := *s;", "s = (t.0 + 1, t.1);", "u := *s;", "(u.0, u.1)"],
+    &["s := mut [0, 10];", "s += [1];", "std.len(*s)"],
+    &["s := mut struct{n := 0};", "t := *s;", "s = struct{n := t.n + 1};", "u := *s;", "u.n"],
+    &["s := mut \"a\";", "s += \"b\";", "*s"],
+    &["s := mut ((), true);", "s = ((), false);", "t := *s;", "t.1"],
+    &["mk := () -> int { s := mut (0, 10); t := *s; s = (t.0 + 1, t.1); u := *s; return u.0 };", "a := mk();", "b := mk();", "(a, b, mk())"],
+    &["out := mut [int] [];", "i := mut 0;", "while *i < 3 { s := mut (0, 10); t := *s; s = (t.0 + 1, t.1); u := *s; out += [u.0]; i += 1; };", "*out"],
     &["arr := [1, 2, 3];", "t := () -> int { return arr~ $+ };", "a := t();", "b := t();", "(a, b)"],
     &["arr := [1, 2, 3];", "a := arr~ $];", "b := arr~ $];", "(a, b)"],
     &["arr := [1, 2, 3];", "s := mut 0;", "for k in [1, 2]~ { for x in arr~ { s += x; } };", "*s"],
